@@ -406,9 +406,11 @@ class MinErrorFlow():
                 edge_subset = [e for e in self.original_graph_copy.edges()]
                 # edge_subset = edge_subset[:30]        
 
-                # Getting all the different 'flow_attr' values in the corrected graph
+                # Getting all the different values of the first solution on these edges. They are read from the
+                # solution itself: the corrected graph has other node names in node-weighted mode, and it has
+                # no value on the ignored edges without flow attribute
                 ub_different_flow_values = len(set(
-                    corrected_graph[u][v].get(self.flow_attr, 0)
+                    self.edge_sol[(u, v)]
                     for (u, v) in edge_subset
                 ))
 
